@@ -60,6 +60,7 @@ typedef struct {
 
 typedef struct {
 	uint64_t executions, pruned, completed, deadlocks, choice_points, states, steps;
+	uint64_t fine_points;		/* scheduling points at plain accesses (fine_grained) */
 	uint64_t atomic_ops, plain_accesses, interrupts_injected, preemptions, spin_blocks, max_depth;
 	int bound_completed;		/* largest deviation bound fully explored (-1 none, 1000000 = unbounded) */
 	int capped;			/* stopped by deadline / execution cap */
@@ -85,6 +86,8 @@ void vs_fail(const char *clause, const char *fmt, ...);
 __attribute__((format(printf, 1, 2)))
 void vs_trace(const char *fmt, ...);		/* human-readable trace, only recorded when re-running a failure */
 int vs_tracing(void);
+/* optional: called (in the writing context) before every plain write to VS_SHARED memory during an execution */
+extern void (*vs_plain_write_hook)(int ctx, const char *region, size_t offset);
 /* per-memory-order tabulation of executed atomics, filled over the whole exploration */
 typedef struct { char what[48]; uint64_t n; } vs_optab_entry;
 int vs_optab(const vs_optab_entry **tab);
